@@ -81,6 +81,10 @@ pub fn gen(r: &mut Rng, _tier: &str, _i: usize, stats: &mut BTreeMap<String, u64
     let nodiff_pct = if profile == "diff" { *r.pick(&[0usize, 0, 0, 15]) } else if profile == "val" { 1000 } else { 10 };
     let mut pool = vec![];
     for _ in 0..npool {
+        if profile == "default" && r.chance(1, 5) {
+            pool.push(r.pick(&["0", "1", "2", "(1 - 1)", "0 * 3"]).to_string());
+            continue;
+        }
         let vs = *r.pick(var_sets);
         pool.push(gen_text(r, vs, 0, nodiff_pct));
     }
@@ -91,11 +95,13 @@ pub fn gen(r: &mut Rng, _tier: &str, _i: usize, stats: &mut BTreeMap<String, u64
     for _ in 0..nsteps {
         let i = r.below(16);
         let j = r.below(16);
-        let kind = match profile {
+        let after_p = steps.last().map(|l: &String| l.starts_with("p:")).unwrap_or(false);
+        let (i, kind) = if after_p && r.chance(1, 2) { (99, "s") } else { (i, "") };
+        let kind = if kind == "s" { "s" } else { match profile {
             "subs" => *r.pick(&["s", "s", "s", "b", "u"]),
             "diff" | "val" => *r.pick(&["p", "p", "p", "b", "s"]),
             _ => *r.pick(&["b", "b", "u", "+", "-", "*", "/", "^", "n", "s", "p"]),
-        };
+        } };
         let step = match kind {
             "b" => {
                 let nm = if r.chance(1, 12) { "nosuchop".to_string() } else { r.pick(&all_names).clone() };
@@ -187,7 +193,8 @@ pub fn run(f: &[&str]) -> String {
         let mut out = vec![];
         for step in &hist {
             let g: Vec<&str> = step.split(':').collect();
-            let idx = |s: &str| s.parse::<usize>().unwrap() % pool.len();
+            // index 99 = the most recent pool entry
+            let idx = |s: &str| if s == "99" { pool.len() - 1 } else { s.parse::<usize>().unwrap() % pool.len() };
             let leak = |s: String| -> &'static str { Box::leak(s.into_boxed_str()) };
             let r: Result<exmex::ExResult<P<'static>>, ()> = std::panic::catch_unwind(std::panic::AssertUnwindSafe(|| -> exmex::ExResult<P<'static>> {
                 match g[0] {
@@ -224,7 +231,7 @@ pub fn run(f: &[&str]) -> String {
                         let pairs: Vec<(String, usize)> = if g[2] == "-" {
                             vec![]
                         } else {
-                            g[2].split(';').map(|kv| { let p: Vec<&str> = kv.split('=').collect(); (unhex(p[0]), p[1].parse::<usize>().unwrap() % pool.len()) }).collect()
+                            g[2].split(';').map(|kv| { let p: Vec<&str> = kv.split('=').collect(); (unhex(p[0]), idx(p[1])) }).collect()
                         };
                         match pool[idx(g[1])].clone() {
                             P::Fl(a) => {
